@@ -33,6 +33,107 @@ def _is_self_call(st, meth):
             and not st.value.args)
 
 
+def _is_empty_container(v) -> bool:
+    """`{}`, `[]`, `set()`, `dict()`, `list()`, `defaultdict(<factory>)`, `OrderedDict()` ...: a NEW empty container"""
+    if isinstance(v, ast.Dict):
+        return not v.keys
+    if isinstance(v, (ast.List, ast.Set, ast.Tuple)):
+        return not v.elts
+    if isinstance(v, ast.Call) and not v.keywords:
+        fn = v.func.attr if isinstance(v.func, ast.Attribute) else (v.func.id if isinstance(v.func, ast.Name) else None)
+        if fn in ("set", "dict", "list", "OrderedDict", "deque"):
+            return not v.args
+        if fn == "defaultdict":
+            # defaultdict(factory) is empty; defaultdict(factory, initial) is not
+            return len(v.args) <= 1
+    return False
+
+
+def _self_attr_call(node, attr, meths):
+    """`self.<attr>.<meth>(...)` with meth in meths -> the Call node, else None"""
+    if isinstance(node, ast.Call) and isinstance(node.func, ast.Attribute) and node.func.attr in meths \
+            and isinstance(node.func.value, ast.Attribute) and node.func.value.attr == attr \
+            and isinstance(node.func.value.value, ast.Name) and node.func.value.value.id == "self":
+        return node
+    return None
+
+
+def _parsing_balanced(eng) -> bool:
+    """every `self.parsing.add(x)` in CompilationEngine is a statement directly followed by a `try` whose
+    `finally` does `self.parsing.discard(x)` / `.remove(x)` for the same x; `parsing` is not grown in any other way.
+    Vacuously true if nothing is ever added."""
+    cls = next((n for n in ast.walk(eng) if isinstance(n, ast.ClassDef) and n.name == "CompilationEngine"), None)
+    if cls is None:
+        return False
+    grow = ("add", "update", "__ior__", "union_update")
+    total = sum(1 for n in ast.walk(cls) if _self_attr_call(n, "parsing", grow))
+    for n in ast.walk(cls):  # `self.parsing |= ...`, `self.parsing = <non-empty>` outside reset()/__init__
+        if isinstance(n, ast.AugAssign) and isinstance(n.target, ast.Attribute) and n.target.attr == "parsing":
+            total += 1
+    ok = 0
+    for n in ast.walk(cls):
+        for fld in ("body", "orelse", "finalbody"):
+            body = getattr(n, fld, None)
+            if not isinstance(body, list):
+                continue
+            for i, st in enumerate(body):
+                c = _self_attr_call(st.value, "parsing", ("add",)) if isinstance(st, ast.Expr) else None
+                if c is None or len(c.args) != 1:
+                    continue
+                nxt = body[i + 1] if i + 1 < len(body) else None
+                if isinstance(nxt, ast.Try) and any(
+                        isinstance(x, ast.Expr) and (d := _self_attr_call(x.value, "parsing", ("discard", "remove")))
+                        and len(d.args) == 1 and ast.dump(d.args[0]) == ast.dump(c.args[0]) for x in nxt.finalbody):
+                    ok += 1
+    return ok == total
+
+
+def _check_restarts_tmp(chk) -> bool:
+    """`check` calls `tmp_vars.reset()` directly after `self.reset()` (imports in between allowed), and
+    cfg/builder.py's `tmp_vars` is an instance of a class whose `reset` starts a new `itertools.count()`"""
+    if chk is None:
+        return False
+    sts = [st for st in chk.body if not (isinstance(st, ast.Expr) and isinstance(st.value, ast.Constant))
+           and not isinstance(st, (ast.Import, ast.ImportFrom))]
+    if len(sts) < 2 or not _is_self_call(sts[0], "reset"):
+        return False
+    st = sts[1]
+    if not (isinstance(st, ast.Expr) and isinstance(st.value, ast.Call) and isinstance(st.value.func, ast.Attribute)
+            and st.value.func.attr == "reset" and isinstance(st.value.func.value, ast.Name)
+            and st.value.func.value.id == "tmp_vars" and not st.value.args):
+        return False
+    b = _parse(os.path.join("cfg", "builder.py"))
+    cname = None
+    for st in b.body:
+        tgt, val = None, None
+        if isinstance(st, ast.Assign) and len(st.targets) == 1 and isinstance(st.targets[0], ast.Name):
+            tgt, val = st.targets[0].id, st.value
+        elif isinstance(st, ast.AnnAssign) and isinstance(st.target, ast.Name):
+            tgt, val = st.target.id, st.value
+        if tgt == "tmp_vars" and isinstance(val, ast.Call) and isinstance(val.func, ast.Name) and not val.args:
+            cname = val.func.id
+    cls = next((n for n in b.body if isinstance(n, ast.ClassDef) and n.name == cname), None)
+    if cls is None:
+        return False
+
+    def count_attr(meth):
+        m = next((x for x in cls.body if isinstance(x, ast.FunctionDef) and x.name == meth), None)
+        if m is None:
+            return None
+        for x in m.body:
+            if isinstance(x, ast.Assign) and len(x.targets) == 1 and isinstance(x.targets[0], ast.Attribute) \
+                    and isinstance(x.targets[0].value, ast.Name) and x.targets[0].value.id == "self" and _is_count(x.value):
+                return x.targets[0].attr
+        return None
+    a = count_attr("reset")
+    return a is not None and a == count_attr("__init__")
+
+
+def _is_count(v) -> bool:
+    return isinstance(v, ast.Call) and not v.args and (
+        (isinstance(v.func, ast.Attribute) and v.func.attr == "count") or (isinstance(v.func, ast.Name) and v.func.id == "count"))
+
+
 def facts() -> dict:
     f: dict = {}
     eng = _parse("engine.py")
@@ -41,11 +142,15 @@ def facts() -> dict:
     cleared = []
     if reset:
         for st in reset.body:
-            if isinstance(st, ast.Assign) and len(st.targets) == 1 and isinstance(st.targets[0], ast.Attribute) \
-                    and isinstance(st.targets[0].value, ast.Name) and st.targets[0].value.id == "self" \
-                    and isinstance(st.value, (ast.Dict, ast.List, ast.Set)) and not getattr(st.value, "keys", None) \
-                    and not getattr(st.value, "elts", None):
-                cleared.append(st.targets[0].attr)
+            if isinstance(st, ast.Assign) and len(st.targets) == 1:
+                tgt, val = st.targets[0], st.value
+            elif isinstance(st, ast.AnnAssign) and st.value is not None:
+                tgt, val = st.target, st.value
+            else:
+                continue
+            if isinstance(tgt, ast.Attribute) and isinstance(tgt.value, ast.Name) and tgt.value.id == "self" \
+                    and _is_empty_container(val):
+                cleared.append(tgt.attr)
     f["reset_clears"] = sorted(cleared)
     # --- attributes declared on the engine
     attrs = []
@@ -72,6 +177,11 @@ def facts() -> dict:
             break
     f["check_resets"] = bool(first is not None and _is_self_call(first, "reset")
                              and {"parsed", "checked"} <= set(cleared))
+    # --- `parsing` (ids whose signature is being parsed): emptied by reset(); every add is undone in a `finally`
+    f["reset_clears_parsing"] = ("parsing" not in attrs) or ("parsing" in cleared)
+    f["parse_restores"] = _parsing_balanced(eng)
+    # --- check(): the %tmp numbering is restarted right after self.reset()
+    f["check_restarts_tmp"] = _check_restarts_tmp(chk)
     # --- compile_cfg: insert_return_vars only under an `if` that tests is_return_var
     cc = _func(_parse("compiler/cfg_compiler.py"), "compile_cfg")
     guarded, unguarded = 0, 0
@@ -142,6 +252,11 @@ def facts() -> dict:
             if rel.startswith("std" + os.sep):
                 continue
 
+            # classes of this module whose instances carry their own count() (e.g. cfg/builder.py TmpVars)
+            counter_classes = {c.name for c in tree.body if isinstance(c, ast.ClassDef) and any(
+                isinstance(m, ast.FunctionDef) and m.name == "__init__" and any(_is_count(x) for x in ast.walk(m))
+                for m in c.body)}
+
             def scan(body, prefix):
                 for st in body:
                     tgt, val = None, None
@@ -151,7 +266,8 @@ def facts() -> dict:
                         tgt, val = st.target.id, st.value
                     if tgt and any(isinstance(x, ast.Call) and (
                             (isinstance(x.func, ast.Attribute) and x.func.attr == "count") or
-                            (isinstance(x.func, ast.Name) and x.func.id == "count")) for x in ast.walk(val)):
+                            (isinstance(x.func, ast.Name) and x.func.id == "count") or
+                            (isinstance(x.func, ast.Name) and x.func.id in counter_classes)) for x in ast.walk(val)):
                         counters.append(f"{rel}:{prefix}{tgt}")
                     if isinstance(st, ast.ClassDef):
                         scan(st.body, prefix + st.name + ".")
@@ -172,10 +288,12 @@ def render(f: dict) -> str:
         "import GuppyVerif.Model.Session\n"
         "/-! GENERATED by harness/props/c11_translate.py from /repo's source on every run (T-src). Do not edit. -/\n"
         "namespace GuppyVerif.Session.Gen\n\n"
-        "/-- facts read off engine.py, compiler/cfg_compiler.py, the whole package (input_tys reads, frame writes), tracing/state.py -/\n"
+        "/-- facts read off engine.py, compiler/cfg_compiler.py, cfg/builder.py, the whole package (input_tys reads, frame writes), tracing/state.py -/\n"
         f"def config : Config :=\n  {{ checkResets := {b(f['check_resets'])},\n    returnVarsGuard := {b(f['return_vars_guard'])},\n"
         f"    compilerReadsInputTys := {b(bool(f['input_tys_reads']))},\n    tracingRestored := {b(f['tracing_restored'])},\n"
-        f"    nestedRecBindsInFrame := {b(bool(f['frame_writes']))} }}\n\n"
+        f"    nestedRecBindsInFrame := {b(bool(f['frame_writes']))},\n"
+        f"    resetClearsParsing := {b(f['reset_clears_parsing'])},\n    parseRestores := {b(f['parse_restores'])},\n"
+        f"    checkRestartsTmp := {b(f['check_restarts_tmp'])} }}\n\n"
         f"/-- attributes `CompilationEngine.reset` reassigns to an empty container -/\ndef resetClears : List String := {ls(f['reset_clears'])}\n\n"
         f"/-- every attribute assigned on `self` anywhere in `CompilationEngine` -/\ndef engineAttrs : List String := {ls(f['engine_attrs'])}\n\n"
         f"/-- reads of `.input_tys` outside checker/ -/\ndef inputTysReads : List String := {ls(f['input_tys_reads'])}\n\n"
